@@ -219,6 +219,8 @@ def run_driver(dexe, case, wd, tag="t", mode="stream", flush_adjusted=True, keep
             res["stats"][int(f[1])] = tuple(int(x) for x in f[2:8])
         elif f[0] == b"disc":
             res["discs"][int(f[1])] = (f[2] == b"1", [Fraction(x.decode()) for x in f[3:6]])
+        elif f[0] == b"tablewf":
+            res["tablewf"] = f[1] == b"1"
         elif f[0] == b"uniform":
             res["uniform"] = Fraction(f[1].decode())
         elif f[0] == b"gram":
